@@ -19,7 +19,8 @@ ASSUMPTIONS = ['hardware and network layers are replaced by fakes (fake Crazyrad
                'socket / serial modules); an audit hook turns any real socket.connect into a harness error',
                '"claims a URI" = connect() does not raise WrongUriType']
 REQUIRED = ['mon.parse_uri', 'mon.malformed', 'mon.settings_applied', 'mon.scan_results', 'mon.scheme_dispatch', 'mon.open_link_bad',
-            'mon.serial_dongle_ids', 'mon.scans_of_address_zero', 'mon.scheme_dispatch_after_a_second_init_drivers_call']
+            'mon.serial_dongle_ids', 'mon.scans_of_address_zero', 'mon.scheme_dispatch_after_a_second_init_drivers_call',
+            'mon.malformed_uris_of_a_known_scheme_dispatched']
 DESC_TIMEOUT = 900
 RATES = {'250K': 0, '1M': 1, '2M': 2}
 _guard = {'installed': False, 'hits': []}
@@ -116,7 +117,9 @@ def run_parse(desc, ctx):
         # malformed and foreign URIs
         for uri, kind in (('usb://0', 'foreign'), ('tcp://1.2.3.4:5', 'foreign'), ('', 'foreign'), ('radio:/0/80', 'foreign'),
                           ('Radio://0/80/2M', 'foreign'), ('radio://0/x/2M', 'bad'), ('radio://0/80/2M/GG', 'bad'),
-                          ('radio://0/80/2M/E7E7E7E7E7E7', 'bad'), ('radio://NOSUCHSERIAL/80/2M', 'bad')):
+                          ('radio://0/80/2M/E7E7E7E7E7E7', 'bad'), ('radio://NOSUCHSERIAL/80/2M', 'bad'),
+                          ('radio://0/80/3M', 'bad'), ('radio://0/80/250k', 'bad'), ('radio://0/80/2Mx', 'bad'),
+                          ('radio://0/80/2M/E7E7E7E7E7/1', 'bad')):
             ctx.evals()
             ctx.count('mon.malformed')
             try:
@@ -276,6 +279,9 @@ def run_dispatch(desc, ctx):
         'prrt': ['prrt://10.0.0.1:5000', 'prrt://10.0.0.1:5000/2000'],
         'none': ['', 'foo://0', 'radio', 'http://0/80/2M', 'usb:/0', 'radio:/0/80/2M', 'tcp//1.2.3.4:5', 'serial:ttyUSB0',
                  'Radio://0/80/2M', ' radio://0/80/2M', 'bogus://%d' % rnd.randrange(100)],
+        # the beginning of a scheme's syntax with something wrong after it: no driver may come up for these
+        'malformed': ['usb://0/80/2M/E7E7E7E7E7', 'usb://1x', 'usb://0?safelink=0', 'usb://2 ', 'usb://', 'usb://abc',
+                      'usb://%d/' % rnd.randrange(4), 'radio://0x', 'radio://0/80/2M/E7E7E7E7E7/1', 'radio://0/80/3M', 'radio://0/80/2Mx'],
     }
     # the driver lists are what the library's own init_drivers() registers, for every history of calls an application makes
     histories = {
@@ -284,7 +290,7 @@ def run_dispatch(desc, ctx):
         'default-then-with-serial': [{}, {'enable_serial_driver': True}],
         'with-serial-then-default': [{'enable_serial_driver': True}, {}],
     }
-    ob = {'claims': {}, 'gld': {}}
+    ob = {'claims': {}, 'gld': {}, 'up': {}}
 
     saved_classes = list(crtp.CLASSES)
 
@@ -293,6 +299,31 @@ def run_dispatch(desc, ctx):
         old = (cr._find_devices, cfusb._find_devices, tr.socket, ud.socket, getattr(tr, 'serial', None), getattr(sd, 'list_ports', None))
         cr._find_devices = lambda serial=None: list(devs)
         cfusb._find_devices = lambda: []
+        # (a Crazyflie on USB is present, so that a USB URI that should not have been accepted does bring a driver up)
+        import cflib.crtp.usbdriver as usbd
+
+        class _FakeCfUsb:
+            def __init__(self, device=None, devid=0):
+                self.dev = object()
+                self.devid = devid
+
+            def set_crtp_to_usb(self, on):
+                pass
+
+            def close(self):
+                pass
+
+            def scan(self):
+                return []
+
+            def send_packet(self, d):
+                pass
+
+            def receive_packet(self):
+                ds.v_sleep(0.01)
+                return ()
+        old_cfusb = usbd.CfUsb
+        usbd.CfUsb = _FakeCfUsb
         fake_sock = FakeSocketModule(lambda: LiveSocket())
         tr.socket = fake_sock
 
@@ -319,6 +350,7 @@ def run_dispatch(desc, ctx):
                     for scheme, us in uris.items():
                         for uri in us:
                             claimed = []
+                            up = []
                             for cls in classes:
                                 rd.RadioManager._radios = []
                                 rd.RadioManager._lock = ds.Semaphore(1)
@@ -326,6 +358,7 @@ def run_dispatch(desc, ctx):
                                 try:
                                     inst.connect(uri, None, lambda m: None)
                                     claimed.append(cls.__name__)
+                                    up.append(cls.__name__)
                                     try:
                                         inst.close()
                                     except Exception:
@@ -335,11 +368,14 @@ def run_dispatch(desc, ctx):
                                 except Exception:
                                     claimed.append(cls.__name__)
                             ob['claims'][(lname, scheme, uri)] = claimed
+                            ob['up'][(lname, scheme, uri)] = up
                             rd.RadioManager._radios = []
                             rd.RadioManager._lock = ds.Semaphore(1)
                             try:
                                 inst = crtp.get_link_driver(uri, None, lambda m: None)
                                 ob['gld'][(lname, scheme, uri)] = inst is not None
+                                if inst is not None:
+                                    ob['up'][(lname, scheme, uri)] = ob['up'][(lname, scheme, uri)] + ['get_link_driver']
                                 if inst is not None:
                                     try:
                                         inst.close()
@@ -349,6 +385,7 @@ def run_dispatch(desc, ctx):
                                 ob['gld'][(lname, scheme, uri)] = True
         finally:
             crtp.CLASSES[:] = saved_classes
+            usbd.CfUsb = old_cfusb
             cr._find_devices, cfusb._find_devices, tr.socket, ud.socket = old[:4]
             if old[4] is None:
                 del tr.serial
@@ -367,6 +404,12 @@ def run_dispatch(desc, ctx):
         ctx.evals()
         ctx.count('mon.scheme_dispatch')
         ctx.nontrivial(('dispatch', lname, uri))
+        if scheme == 'malformed':
+            ctx.count('mon.malformed_uris_of_a_known_scheme_dispatched')
+            if ob['up'].get((lname, scheme, uri)):
+                ctx.violate('uri:dispatch:driver-came-up-for-a-malformed-uri', {'uri': uri, 'driver_list': lname,
+                                                                               'brought_up_by': ob['up'][(lname, scheme, uri)]})
+            continue
         if scheme == 'none' or (scheme == 'serial' and lname == 'default'):
             want = []
         else:
@@ -396,7 +439,8 @@ def run_openlink(desc, ctx):
     from cflib.crazyflie import Crazyflie
     rnd = random.Random(desc['seed'])
     bad = ['', 'foo://0', 'radio', 'http://x', 'radio://0/abc/2M', 'radio://0/80/2M/XYZ', 'usb://0', 'usb://x', 'radio://NOSERIAL/80/2M',
-           'radio://7/80/2M', 'sim://missing', 'tcp//x', 'serial://nope', 'bogus://%d' % rnd.randrange(1000)]
+           'radio://7/80/2M', 'sim://missing', 'tcp//x', 'serial://nope', 'bogus://%d' % rnd.randrange(1000),
+           'usb://1x', 'usb://2/80/2M/E7E7E7E7E7', 'usb://1?safelink=0', 'usb://3 ']
     prof = gen.profile(desc['seed'], 2, 2)
     dev = simcf.SimCF(prof)
     simlink.SIMS['sim://c20'] = simlink.LinkSpec(dev)
@@ -408,6 +452,31 @@ def run_openlink(desc, ctx):
         old = (cr._find_devices, cfusb._find_devices, cr.get_serials)
         cr._find_devices = lambda serial=None: []
         cfusb._find_devices = lambda: []
+        # (a Crazyflie on USB is present, so that a USB URI that should not have been accepted does bring a driver up)
+        import cflib.crtp.usbdriver as usbd
+
+        class _FakeCfUsb:
+            def __init__(self, device=None, devid=0):
+                self.dev = object() if devid >= 1 else None      # (no Crazyflie at usb://0)
+                self.devid = devid
+
+            def set_crtp_to_usb(self, on):
+                pass
+
+            def close(self):
+                pass
+
+            def scan(self):
+                return []
+
+            def send_packet(self, d):
+                pass
+
+            def receive_packet(self):
+                ds.v_sleep(0.01)
+                return ()
+        old_cfusb = usbd.CfUsb
+        usbd.CfUsb = _FakeCfUsb
         cr.get_serials = lambda: ()
         try:
             crtp.CLASSES[:] = [crtp.RadioDriver, crtp.UsbDriver, crtp.SerialDriver] + [c for c in saved if c.__name__ == 'SimLinkDriver']
@@ -432,6 +501,7 @@ def run_openlink(desc, ctx):
         finally:
             crtp.CLASSES[:] = saved
             cr._find_devices, cfusb._find_devices, cr.get_serials = old
+            usbd.CfUsb = old_cfusb
     _, abort, sch = harness.sched_case(fn, seed=desc['seed'], policy='random', horizon=5000.0)
     if abort is not None:
         ctx.violate('uri:open_link:hang', {'abort': str(abort), 'threads': abort.table, 'done': [r[0] for r in res]})
